@@ -1,15 +1,54 @@
-(* C12 Sync discipline. Statements only; the meaning/protocol theorems of Io/TraceProofs.v are added when proved. *)
-Require Import Pearl.Base.Prelude Pearl.Storage.Model Pearl.Io.Trace.
+(* C12 Sync discipline: bounded un-synced data and write ordering for durability. Statements only. *)
+Require Import Pearl.Base.Prelude Pearl.Storage.Model Pearl.Storage.Spec Pearl.Io.Trace Pearl.Io.TraceProofs.
 
-(* conformance example: the extracted predicates accept the protocol of a blob with two records and its index dump,
-   and reject a trace that marks the index complete before the blob was synced *)
-Example C12_protocol_example :
-  judge (open_new_evs 0 ++ [EvAppend (FBlob, 0) 20 74; EvAppend (FBlob, 0) 94 74] ++ dump_evs 0) = true.
-Proof. vm_compute. reflexivity. Qed.
+(* EVERY history of the storage model (all operations, restarts, drops, background requests, dumps at
+   quiescence points) produces a file-operation trace that the three predicates accept: appends land at
+   the end of their blob, a blob's header is synced before any record goes into it, and an index file is
+   marked complete only when every byte of its blob is synced. *)
+Theorem C12_every_history_trace_accepted :
+  forall (K : N) (cfg : config) (ops : list op), judge (run_trace K cfg init_storage ops) = true.
+Proof. exact history_trace_accepted. Qed.
 
+(* what acceptance means, in terms of the file-state machine (length, synced length) of the trace itself;
+   the SAME predicates, extracted, judge the trace recorded from the real crate on every check run *)
+Theorem C12_header_synced_before_records :
+  forall (tr1 tr2 : list ev) (i off len : N),
+    judge_from ev_header_synced [] (tr1 ++ EvAppend (FBlob, i) off len :: tr2) = true -> off <> 0 ->
+    match fget (run_evs [] tr1) (FBlob, i) with Some (_, sy) => 20 <= sy | None => True end.
+Proof. exact header_synced_meaning. Qed.
+
+Theorem C12_index_complete_only_after_blob_synced :
+  forall (tr1 tr2 : list ev) (i len : N),
+    judge_from ev_index_after_sync [] (tr1 ++ EvWriteAt (FIndex, i) 0 len :: tr2) = true ->
+    match fget (run_evs [] tr1) (FBlob, i) with Some (sz, sy) => sz = sy | None => True end.
+Proof. exact index_after_sync_meaning. Qed.
+
+(* the blob/index protocol (create, header, sync, any number of records, dump) is accepted and leaves no
+   un-synced byte of the blob *)
+Theorem C12_protocol_accepted :
+  forall (K id : N) (rs : list rec), judge (open_new_evs id ++ appends_from K id 20 rs ++ dump_evs id) = true.
+Proof. exact protocol_accepted. Qed.
+Theorem C12_protocol_clean :
+  forall (K id : N) (rs : list rec),
+    dirty_of (open_new_evs id ++ appends_from K id 20 rs ++ dump_evs id) (FBlob, id) = 0.
+Proof. exact protocol_clean. Qed.
+
+(* the files the predicted trace leaves behind are the blobs of the final model state *)
+Theorem C12_trace_matches_state :
+  forall (K : N) (cfg : config) (ops : list op) (b : blob),
+    In b (blobs_in_order (fst (run K cfg init_storage ops))) ->
+    exists sy, fget (run_evs [] (run_trace K cfg init_storage ops)) (FBlob, b_id b) = Some (blob_size K b, sy) /\ 20 <= sy.
+Proof. exact history_files_match. Qed.
+
+(* a trace that marks the index complete before the blob was synced is rejected *)
 Theorem C12_unsynced_index_rejected :
   judge_from ev_index_after_sync []
     (open_new_evs 0 ++ [EvAppend (FBlob, 0) 20 74; EvCreate (FIndex, 0); EvAppend (FIndex, 0) 0 249; EvWriteAt (FIndex, 0) 0 83]) = false.
 Proof. vm_compute. reflexivity. Qed.
 
-Print Assumptions C12_unsynced_index_rejected.
+Print Assumptions C12_every_history_trace_accepted.
+Print Assumptions C12_header_synced_before_records.
+Print Assumptions C12_index_complete_only_after_blob_synced.
+Print Assumptions C12_protocol_accepted.
+Print Assumptions C12_protocol_clean.
+Print Assumptions C12_trace_matches_state.
